@@ -127,7 +127,7 @@ def check_property(prop, tier, seed, only=None, verbose=True):
         for h in per_h:
             print('  %-38s paths=%-5d obl=%d/%d queries=%-5d solver=%.1fs wall=%ss %s' % (
                 h['name'], h['paths'], h['discharged'], h['obligations'], h['queries'], h['solver_s'], h['wall_s'],
-                ('INCONCLUSIVE ' + '; '.join(h['inconclusive'])[:400]) if h['inconclusive'] else ''))
+                ('INCONCLUSIVE ' + '; '.join(h['inconclusive'])[:160]) if h['inconclusive'] else ''))
     for name, v, path, out in confirmed:
         print('  counterexample in %s: %s' % (name, v.get('label')))
         print('  ' + out.strip().replace('\n', '\n  ')[-1200:])
@@ -142,8 +142,8 @@ def check_property(prop, tier, seed, only=None, verbose=True):
                 print(v['trace'][-1500:])
         return EXIT_INCONCLUSIVE
     if inconclusive:
-        for name, msg in inconclusive[:10]:
-            print('INCONCLUSIVE %s: %s' % (name, msg))
+        for name, msg in inconclusive[:6]:
+            print('INCONCLUSIVE %s: %s' % (name, msg[:700]))
         for r in results:
             if r.get('trace'):
                 print(r['trace'])
